@@ -193,6 +193,8 @@ def main(ctx):
     ctx.pmap('hyp_shard', [('rt', k, n) for k in range(4)] + [('text', k, n // 2) for k in range(2)] +
              [('bin', k, n // 2) for k in range(2)] + [('invalid', k, n // 2) for k in range(2)])
     for fmt in ('bin', 'text'):
+        many = [{'type': 'sysex', 'data': [i % 128, (i // 128) % 128], 'time': 0} for i in range(1500)]
+        ctx.check({'kind': 'roundtrip', 'msgs': many, 'fmt': fmt}, sample=False)
         ctx.check({'kind': 'roundtrip', 'msgs': [], 'fmt': fmt})
         for stale in ('bin', 'text'):
             ctx.check({'kind': 'roundtrip', 'msgs': [], 'fmt': fmt, 'stale': stale})
